@@ -167,3 +167,26 @@ mutant("c05-continue-around-budget", "C05", "C05.pair.budget", FD,
 mutant("c05-new-growth-caller", "C05", "C05.who.growth", SCR, "        self.offset_hist = dict.offset_hist;\n", "        self.offset_hist = dict.offset_hist;\n        self.buffer.push(&dict.dict_content);\n")
 mutant("c05-streaming-asks-too-much", "C05", "C05.pair.budget", STREAM, "let additional_bytes_needed = buf.len() - decoder.can_collect();", "let additional_bytes_needed = buf.len() * 1024;")
 benign("c05-guard-reordered-operands", "C05", SEQX, "        if seq_sum + seq.ll + seq.ml > MAX_BLOCK_SIZE {", "        if MAX_BLOCK_SIZE < seq.ml + seq_sum + seq.ll {")
+
+# ---- C06 -------------------------------------------------------------------------------
+mutant("c06-d1-revert", "C06", "C06.account.decode_from_to", FD,
+       "                        state.check_sum = Some(chksum);\n                        return Ok((4, 0));\n                    }\n                    // not enough bytes for the checksum yet: nothing was consumed\n                    return Ok((0, 0));",
+       "                        state.check_sum = Some(chksum);\n                    }\n                    return Ok((4, 0));")
+mutant("c06-guard-amount-n1", "C06", "C06.prov.drain", DB, "            drain_guard.amount += written1;", "            drain_guard.amount += n1;")
+mutant("c06-error-before-record", "C06", "C06.prov.drain", DB,
+       "            drain_guard.amount += written1;\n\n            // Apparently this is what clippy thinks is the best way of expressing this\n            res1?;",
+       "            res1?;\n            drain_guard.amount += written1;")
+mutant("c06-second-segment-always", "C06", "C06.prov.drain", DB, "            if written1 == n1 && n2 != 0 {", "            if n2 != 0 {")
+mutant("c06-n2-ignores-n1", "C06", "C06.prov.drain", DB, "let n2 = slice2.len().min(amount - n1);", "let n2 = slice2.len().min(amount);")
+mutant("c06-write-all-returns-buflen", "C06", "C06.prov.drain", DB, "            Err(e) => return (written, Err(e)),", "            Err(e) => return (buf.len(), Err(e)),")
+mutant("c06-extra-dropper", "C06", "C06.who.dropper", DB, "        self.buffer.clear();\n        vec\n", "        self.buffer.drop_first_n(self.buffer.len());\n        vec\n")
+mutant("c06-collect-not-finished-full", "C06", "C06.select.retention", FD,
+       "        if finished {\n            Some(state.decoder_scratch.buffer.drain())\n        } else {\n            state.decoder_scratch.buffer.drain_to_window_size()",
+       "        if finished || state.block_counter > 0 {\n            Some(state.decoder_scratch.buffer.drain())\n        } else {\n            state.decoder_scratch.buffer.drain_to_window_size()")
+mutant("c06-window-retention-off-by-one", "C06", "C06.select.retention", DB, "            Some(self.buffer.len() - self.window_size)\n", "            Some(self.buffer.len() - self.window_size + 1)\n")
+mutant("c06-header-accounted-early", "C06", "C06.account.decode_from_to", FD,
+       "                    if mt_source.len() < block_header.content_size as usize {\n                        break;\n                    }\n                    state.bytes_read_counter += u64::from(block_header_size);",
+       "                    state.bytes_read_counter += u64::from(block_header_size);\n                    if mt_source.len() < block_header.content_size as usize {\n                        break;\n                    }")
+mutant("c06-closure-short-count", "C06", "C06.prov.drain", DB,
+       "            vec.extend_from_slice(buf);\n                    (buf.len(), Ok(()))", "            vec.extend_from_slice(buf);\n                    (buf.len().saturating_sub(1), Ok(()))")
+benign("c06-rename-written", "C06", DB, "written1", "accepted_first", count=4)
